@@ -56,8 +56,9 @@ func runC17(c *Ctx) {
 	gor := c.Pick(8, 16)
 	calls := c.Pick(6, 40)
 	rounds := c.Pick(3, 25)
+	mult := 1
 	scenario := func(name string, setup func() func(g, k int) (string, string)) {
-		for round := 0; round < rounds; round++ {
+		for round := 0; round < rounds*mult; round++ {
 			verdict := c.Op(fmt.Sprintf("c17.scenario %s %d %d", name, gor, calls), func() string {
 				f := setup() // a freshly constructed shared object per round: "from first use onwards"
 				bad := ""
@@ -323,6 +324,8 @@ func runC17(c *Ctx) {
 		}
 	})
 	// a batch issuer configured for one token type only: requests of the other (decodable) type are answered "absent"
+	// (the write this scenario is after happens once per issuer object: more, shorter rounds)
+	mult = 4
 	scenario("batched.issuer(type-1 only):EvaluateBatch with type-2 requests", func() func(g, k int) (string, string) {
 		a1 := newAd1(c.Seed, "c17-1o", r.Bytes(8))
 		a2 := newAd2(c.Seed, "c17-2o", r.IntN(4))
@@ -333,7 +336,7 @@ func runC17(c *Ctx) {
 			st1, _ := type1.NewBasicPrivateClient().CreateTokenRequest(msg(g, k), bytes.Repeat([]byte{1}, 32), a1.keyID, i1.TokenKey())
 			st2, _ := type2.NewBasicPublicClient().CreateTokenRequest(msg(g, k), bytes.Repeat([]byte{2}, 32), a2.keyID, i2.TokenKey())
 			reqs := []tokens.TokenRequestWithDetails{st2.Request(), st1.Request()}
-			if (g+k)%3 == 0 {
+			if (g+k)%3 == 0 && k > 0 {
 				reqs = []tokens.TokenRequestWithDetails{st1.Request()}
 			}
 			br, _ := batched.NewBasicClient().CreateTokenRequest(reqs)
@@ -351,6 +354,7 @@ func runC17(c *Ctx) {
 			return fmt.Sprint(e1 == nil, len(rs) == 1 || len(rs[0]) == 0), "true true"
 		}
 	})
+	mult = 1
 	// one verification key (the issuer's published token key object) shared by many clients
 	scenario("type2.shared-token-key:CreateTokenRequestWithBlind+FinalizeToken", func() func(g, k int) (string, string) {
 		key := rsaKey(r.IntN(4))
